@@ -517,11 +517,17 @@ fn shrink(set: &Set, mut still_fails: impl FnMut(&Set) -> bool) -> Set {
 	let mut cur = set.clone();
 	let mut chunk = (cur.tiles.len() / 2).max(1);
 	let mut budget = 120;
+	// wall-clock cap: big sets (PMTiles leaf directories) take seconds per attempt
+	let t0 = std::time::Instant::now();
 	loop {
 		let keys: Vec<Coord> = cur.tiles.keys().copied().collect();
 		let mut changed = false;
 		let mut i = 0;
 		while i < keys.len() && budget > 0 {
+			if t0.elapsed().as_secs() >= 20 {
+				budget = 0;
+				break;
+			}
 			if cur.tiles.len() <= 1 {
 				break;
 			}
@@ -547,7 +553,7 @@ fn shrink(set: &Set, mut still_fails: impl FnMut(&Set) -> bool) -> Set {
 	}
 	// tighten the pyramid to the remaining tiles if the failure survives
 	let exact = Set::exact(cur.tiles.clone());
-	if exact.levels != cur.levels && still_fails(&exact) {
+	if exact.levels != cur.levels && t0.elapsed().as_secs() < 25 && still_fails(&exact) {
 		cur = exact;
 	}
 	cur
@@ -593,7 +599,7 @@ pub fn emit_case(ctx: &mut Ctx, shrunk: &mut BTreeMap<String, u32>, target: Targ
 				false,
 				&format!("C01 {} {k}: {msg}", target.name()),
 				sig,
-				json!({"case": trunc(&x_line(target, fmt, comp, &small), 60_000), "message": msg, "tiles": small.tiles.len(), "original_tiles": set.tiles.len(), "format": fmt.name(), "compression": comp.name()}),
+				json!({"case": trunc(&x_line(target, fmt, comp, &small), 1_000_000), "message": msg, "tiles": small.tiles.len(), "original_tiles": set.tiles.len(), "format": fmt.name(), "compression": comp.name()}),
 			);
 		}
 	}
@@ -793,7 +799,7 @@ pub fn run(args: &Args) {
 	self_test().expect("independent Hilbert implementation self test");
 	let mut ctx = c16::new_ctx(args, "c01-scratch");
 	let mut shrunk: BTreeMap<String, u32> = BTreeMap::new();
-	ctx.out.rule = "tile sets (single tile; sparse clusters; dense boxes; zoom gaps; both sides of the 256 grid at zoom 9–12 with x or y in {254,255,256,257,511,512}; duplicate payloads and sizes 999/1000/1001 around the de-duplication threshold; a few hundred tiles; thorough: 130×130 = 16900 tiles at zoom 8 so that PMTiles needs leaf directories; a third of the sets with a pyramid widened beyond the tiles) written with every real writer: the first set with ALL 30 (format, compression) pairs per target (incl. the pairs a target cannot express: Err is fine, a silent change is a failure), later sets with rotating pairs (versatiles 3, pmtiles 3, mbtiles 2, tar 2, directory 2 per set). Payloads are opaque bytes. A case is non-trivial when the set has ≥ 2 tiles and the writer succeeded; distinct by request text".into();
+	ctx.out.rule = "tile sets (single tile; sparse clusters; dense boxes; zoom gaps; both sides of the 256 grid at zoom 9–12 with x or y in {254,255,256,257,511,512}; duplicate payloads and sizes 999/1000/1001 around the de-duplication threshold; a few hundred tiles; 130×130 = 16900 tiles at zoom 8 so that PMTiles needs leaf directories (one PMTiles case in the quick tier, five targets in the thorough tier); a third of the sets with a pyramid widened beyond the tiles) written with every real writer: the first set with ALL 30 (format, compression) pairs per target (incl. the pairs a target cannot express: Err is fine, a silent change is a failure), later sets with rotating pairs (versatiles 3, pmtiles 3, mbtiles 2, tar 2, directory 2 per set). Payloads are opaque bytes. A case is non-trivial when the set has ≥ 2 tiles and the writer succeeded; distinct by request text".into();
 	if let Some(p) = &args.replay {
 		for line in std::fs::read_to_string(p).unwrap().lines() {
 			let line = line.trim_end();
@@ -842,6 +848,11 @@ pub fn run(args: &Args) {
 			emit_case(&mut ctx, &mut shrunk, Target::D, f, c, &set, kind);
 		}
 		rot += 1;
+	}
+	// one set with > 16384 tiles in every tier: PMTiles leaf directories (root + leaves layout of the writer)
+	{
+		let set = gen_set(&mut rng, "leaves");
+		emit_case(&mut ctx, &mut shrunk, Target::P, Fmt::Png, Comp::Gzip, &set, "leaves");
 	}
 	if args.thorough() {
 		for _ in 0..2 {
